@@ -22,6 +22,7 @@
 #include <iostream>
 #include <limits>
 #include <memory>
+#include <mutex>
 #include <sstream>
 #include <stdexcept>
 
@@ -69,6 +70,10 @@ namespace bxdecay0 {
     int count                    = 0;
     int status                   = 0;
     BXDECAY0_VERIF_SCHED(0);
+    // The GSL error handler is a process-wide setting: saving, disabling and restoring it around the
+    // integration must not interleave with the same steps performed from another thread.
+    static std::mutex gsl_eh_mutex;
+    std::unique_lock<std::mutex> gsl_eh_lock(gsl_eh_mutex);
     gsl_error_handler_t * gsl_eh = gsl_set_error_handler_off();
     BXDECAY0_VERIF_SCHED(1);
     while (true) {
@@ -106,6 +111,7 @@ namespace bxdecay0 {
     }
     BXDECAY0_VERIF_SCHED(2);
     gsl_set_error_handler(gsl_eh);
+    gsl_eh_lock.unlock();
     BXDECAY0_VERIF_SCHED(3);
     if (status != 0) {
       std::ostringstream message;
